@@ -30,6 +30,9 @@ type c13Plan struct {
 	CancelAfter int    `json:"cancel_after,omitempty"`
 	Consumer    string `json:"consumer,omitempty"` // next | until | until-nil
 	SendAfter   bool   `json:"send_after,omitempty"`
+	// CauseCtx: after the cancellation scenario the channel is also called with a context that was cancelled with a
+	// cause (context.WithCancelCause): its Err() is still context.Canceled, and that is what the errors must wrap.
+	CauseCtx bool `json:"cause_ctx,omitempty"`
 	FlushFull   bool   `json:"flush_full,omitempty"` // the cancelled send is the flush of a message that exactly filled its packets
 	// close
 	Logout string `json:"logout,omitempty"` // answer | late | never | partial
@@ -38,6 +41,9 @@ type c13Plan struct {
 	// DeadPeer (conn-close): the peer has closed its side long before and nobody received: the reader has queued
 	// more errors than the connection's error queue holds when Conn.Close is called.
 	DeadPeer bool `json:"dead_peer,omitempty"`
+	// PendingSetup (conn-close): another goroutine is inside NewChannel, waiting for an acknowledgement the peer
+	// never sends, when Conn.Close is called. Close must return and so must that NewChannel.
+	PendingSetup bool `json:"pending_setup,omitempty"`
 	// BadPackets (close-errqueue): so many packets that cannot be parsed arrive on the idle channel that the
 	// channel's error queue overflows before Close is called.
 	BadPackets int `json:"bad_packets,omitempty"`
@@ -98,12 +104,14 @@ func (c13) Gen(r *Rand, idx int, tier string) interface{} {
 	p.CancelAfter = r.Intn(12)
 	p.Consumer = Pick(r, []string{"next", "until", "until-nil", "until-err"})
 	p.SendAfter = r.Pct(50)
+	p.CauseCtx = p.Kind == "cancel" && r.Pct(30)
 	p.Logout = Pick(r, []string{"answer", "answer", "late", "never", "partial"})
 	p.LateMs = Pick(r, []int{10, 1000, 59000, 61000})
 	p.DoubleClose = r.Pct(40)
 	p.ConcurrentClose = p.Kind == "closed-calls" && r.Pct(40)
 	p.TwoSenders = p.Kind == "close-send" && r.Pct(40)
 	p.DeadPeer = p.Kind == "conn-close" && r.Pct(30)
+	p.PendingSetup = p.Kind == "conn-close" && !p.DeadPeer && r.Pct(25)
 	p.StallWindow = -1
 	if (p.Kind == "closed-calls" || p.Kind == "conn-close" || p.Kind == "close-queue") && !p.DeadPeer && r.Pct(12) {
 		p.StallWindow = Pick(r, []int{0, 4, 16, 100})
@@ -166,6 +174,12 @@ func (c13) Shrink(plan interface{}) []interface{} {
 	if p.Final {
 		mod(func(q *c13Plan) { q.Final = false })
 	}
+	if p.PendingSetup {
+		mod(func(q *c13Plan) { q.PendingSetup = false })
+	}
+	if p.CauseCtx {
+		mod(func(q *c13Plan) { q.CauseCtx = false })
+	}
 	return out
 }
 
@@ -224,8 +238,14 @@ func (c13) Run(plan interface{}, schedSeed uint64, replay []simrt.Choice, lenien
 	pr := NewTDSPeer(s)
 	pr.Async = p.Async
 	logoutSeen := 0
+	setups := 0
 	pr.OnHeaderOnly = func(pk peer.RecvPacket) {
 		if pk.H.Type == peer.BufSetup {
+			setups++
+			if p.PendingSetup && c13SetupsDone {
+				s.Fault("setup-never-acknowledged")
+				return
+			}
 			pr.Conn.Deliver(peer.MakePacket(peer.BufProtack, peer.BufstatEOM, pk.H.Channel, 0, nil))
 		}
 	}
@@ -277,6 +297,7 @@ func (c13) Run(plan interface{}, schedSeed uint64, replay []simrt.Choice, lenien
 		pr.SendPackets(peer.Packetise(body, peer.CutsBySize(len(body), 9), peer.BufResponse, m.Channel, eom))
 	}
 
+	c13SetupsDone = false
 	c13StallPeer = func() {
 		if p.StallWindow >= 0 {
 			pr.Conn.PeerStalled, pr.Conn.SendWindow = true, p.StallWindow
@@ -446,6 +467,9 @@ func (c13) Run(plan interface{}, schedSeed uint64, replay []simrt.Choice, lenien
 	return v, out
 }
 
+// c13SetupsDone: the setups from here on are not acknowledged (PendingSetup).
+var c13SetupsDone bool
+
 var errC13Callback = errors.New("callback rejects the package (harness marker)")
 
 func c13Count(pkg tds.Package) int32 {
@@ -561,7 +585,41 @@ func c13Cancel(p *c13Plan, res *c13Res, conn *tds.Conn, ch *tds.Channel, cancelP
 			res.violate("wrong-error", "cancel: send error does not wrap the context error", "SendPackage with a cancelled context returned %q", err)
 		}
 	}
+	if p.CauseCtx && p.CancelWhat == "own" {
+		c13CauseCtx(p, res, ch)
+	}
 }
+
+// c13CauseCtx: a receive and a send with a context that was cancelled with a cause.
+func c13CauseCtx(p *c13Plan, res *c13Res, ch *tds.Channel) {
+	cctx, ccancel := context.WithCancelCause(context.Background())
+	ccancel(errC13Cause)
+	simrt.AdoptClosed(cctx.Done())
+	for i := 0; i < p.NPkgs+4; i++ {
+		// packages that were queued already may still be handed out
+		_, err := ch.NextPackage(cctx, true)
+		if err == nil {
+			continue
+		}
+		if !errors.Is(err, context.Canceled) {
+			res.violate("wrong-error", "cancel: error does not wrap the context error", "a receive with a context cancelled with a cause returned %q, which does not wrap %v", err, context.Canceled)
+		}
+		break
+	}
+	before := simrt.Record("send-cancelled-call", "", "", 0)
+	err := ch.SendPackage(cctx, &tds.LanguagePackage{Cmd: "late"})
+	after := simrt.Record("send-cancelled-ret", "", "", 0)
+	if res.cancelledSend[1] == 0 {
+		res.cancelledSend = [2]int{before, after}
+	}
+	if err == nil {
+		res.violate("send-after-cancel", "cancel: send with cancelled context succeeded", "SendPackage with a context cancelled with a cause returned nil")
+	} else if !errors.Is(err, context.Canceled) {
+		res.violate("wrong-error", "cancel: send error does not wrap the context error", "SendPackage with a context cancelled with a cause returned %q", err)
+	}
+}
+
+var errC13Cause = errors.New("the caller's own reason for giving up (harness marker)")
 
 // c13CancelSend: the context of a send that needs several packets is cancelled while the send runs.
 func c13CancelSend(p *c13Plan, res *c13Res, conn *tds.Conn, ch *tds.Channel) {
@@ -673,10 +731,27 @@ func c13ConnClose(p *c13Plan, res *c13Res, conn *tds.Conn, ch0, ch *tds.Channel)
 		c13EndPeer()
 		simrt.Sleep(80 * time.Second)
 	}
+	var pending *simrt.Task
+	if p.PendingSetup {
+		c13SetupsDone = true
+		pending = simrt.Spawn("setup", func() {
+			c, err := conn.NewChannel()
+			if err == nil {
+				res.violate("setup-unacknowledged", "conn-close: NewChannel succeeded without an acknowledgement", "NewChannel returned channel %v although the server never acknowledged the setup", c != nil)
+			}
+		})
+		for i := 0; i < p.CloseAfter; i++ {
+			simrt.Yield(0)
+		}
+	}
 	res.closeStart = simrt.SimNow()
 	_ = conn.Close()
 	res.closeEnd = simrt.SimNow()
 	res.closeDone = true
+	if pending != nil {
+		// it must come back now that the connection is closed (a task that never does shows up as blocked)
+		simrt.Join(pending)
+	}
 	for i, c := range chans {
 		pk, err := c.NextPackage(bg, false)
 		if pk != nil || !errors.Is(err, tds.ErrChannelClosed) {
